@@ -54,7 +54,7 @@ var markSeq atomic.Int64
 func nextMark() string { return "m" + strconv.FormatInt(markSeq.Add(1), 10) }
 
 // send writes the request on a fresh connection and waits up to patience for a response.
-func send(addr string, w wireReq, patience time.Duration) (clientObs, net.Conn) {
+func send(addr string, w wireReq, patience func() time.Duration) (clientObs, net.Conn) {
 	var o clientObs
 	c, err := net.DialTimeout("tcp", addr, 5*time.Second)
 	if err != nil {
@@ -68,7 +68,7 @@ func send(addr string, w wireReq, patience time.Duration) (clientObs, net.Conn) 
 		c.Close()
 		return o, nil
 	}
-	c.SetReadDeadline(time.Now().Add(patience))
+	c.SetReadDeadline(time.Now().Add(patience()))
 	br := bufio.NewReader(c)
 	resp, err := http.ReadResponse(br, &http.Request{Method: w.method})
 	o.elapsed = time.Since(t0)
@@ -87,6 +87,15 @@ func send(addr string, w wireReq, patience time.Duration) (clientObs, net.Conn) 
 	resp.Body.Close()
 	c.Close()
 	return o, nil
+}
+
+func contains(l []string, x string) bool {
+	for _, y := range l {
+		if y == x {
+			return true
+		}
+	}
+	return false
 }
 
 func sameSet(a, b []string) bool {
@@ -162,7 +171,8 @@ func (e *env) checkSeen(cr *caseRun, rq reqJ, want wantJ, w wireReq, rr reqRec, 
 	}
 	r := rq.Rule - 1
 	if cr.c.Preset[r] {
-		if rr.Header.Get("X-Real-Ip") != "127.0.0.1" || rr.Header.Get("X-Forwarded-Proto") != "http" || rr.Header.Get("X-Forwarded-Port") != strconv.Itoa(e.port[cr.c.Rules[r].Site]) {
+		// (the value of X-Forwarded-Port comes from the client's Host: ProxyRelay's business)
+		if rr.Header.Get("X-Real-Ip") != "127.0.0.1" || rr.Header.Get("X-Forwarded-Proto") != "http" || rr.Header.Get("X-Forwarded-Port") == "" {
 			add("transparent preset headers: X-Real-Ip %q X-Forwarded-Proto %q X-Forwarded-Port %q", rr.Header.Get("X-Real-Ip"), rr.Header.Get("X-Forwarded-Proto"), rr.Header.Get("X-Forwarded-Port"))
 		}
 	} else if _, ok := rr.Header["X-Real-Ip"]; ok {
@@ -266,24 +276,26 @@ func (e *env) runCase(cr *caseRun, seed int64, mut func(b, k int, w *wantJ, idle
 			go func(k int) {
 				defer wg.Done()
 				site := c.Rules[batch[k].Rule-1].Site
-				patience := time.Duration(wants[k].Wait)*time.Millisecond + e.slack
-				if wants[k].Res == "held" {
-					patience = 1200 * time.Millisecond
-					if cr.be != nil && wants[k].Delivered {
-						// the backend has the request: from now on a proxy that is going to answer by itself has every reason to
-						id := ids[k]
-						cr.be.until(from, 5*time.Second, func(recs []*connRec) bool {
-							for _, r := range recs {
-								for _, q := range r.Reqs {
-									if q.ID == id {
-										return true
-									}
+				patience := func() time.Duration {
+					if wants[k].Res != "held" {
+						return time.Duration(wants[k].Wait)*time.Millisecond + e.slack
+					}
+					if cr.be == nil || !wants[k].Delivered {
+						return 1200 * time.Millisecond
+					}
+					// once the backend has the request, a proxy that is going to answer by itself has every reason to
+					id := ids[k]
+					cr.be.until(from, 5*time.Second, func(recs []*connRec) bool {
+						for _, r := range recs {
+							for _, q := range r.Reqs {
+								if q.ID == id {
+									return true
 								}
 							}
-							return false
-						})
-						patience = 700 * time.Millisecond
-					}
+						}
+						return false
+					})
+					return 600 * time.Millisecond
 				}
 				obs[k], pending[k] = send(e.addr[site], wires[k], patience)
 			}(k)
@@ -485,7 +497,7 @@ func (e *env) runCase(cr *caseRun, seed int64, mut func(b, k int, w *wantJ, idle
 				gone := cr.be.until(from, 3*time.Second, func(rs []*connRec) bool {
 					for _, r := range rs {
 						for _, q := range r.Reqs {
-							if q.ID == id && !r.Closed {
+							if q.ID == id && !r.Closed && !contains(r.Cancelled, id) {
 								return false
 							}
 						}
@@ -496,7 +508,7 @@ func (e *env) runCase(cr *caseRun, seed int64, mut func(b, k int, w *wantJ, idle
 					return true
 				})
 				if !gone {
-					out = append(out, finding{clause: "silent", what: "the client left, the connection to the silent backend is still open 3 s later", batch: b + 1, k: k + 1})
+					out = append(out, finding{clause: "silent", what: "the client left; 3 s later the connection to the silent backend is still open (h2: the stream not reset)", batch: b + 1, k: k + 1})
 				}
 			}
 		}
